@@ -88,7 +88,48 @@ def verify_scope(prog, an, proof_val):
         res.append((f"Proof::security_level({bool(flag)})", an.analyze(sl, [proof_val, mk(flag, flag)], (), None, an.parse_facts)))
     vnew = prog.fn("winter_verifier::channel::VerifierChannel::new")
     res.append(("VerifierChannel::new", an.analyze(vnew, [top(False), proof_val], (), None, an.parse_facts)))
+    an.ac_inputs = (ti, po, acv)
     return res
+
+
+def aircontext_scope(ck, prog, ti, po, acv):
+    """The AIR is constructed from the proof's trace_info and options — verify(): A::new(proof.trace_info(), pub_inputs, proof.options()) —
+    and every Air::new builds an AirContext from them, so the assertions of AirContext::new / new_multi_segment /
+    set_num_transition_exemptions on those two arguments are reachable from proof bytes. Only explicit panics are reported from this scope:
+    the two arguments are analysed with their individual deserializer invariants, without the joint LDE-size bound of Context::read_from, so
+    arithmetic-overflow sites of this scope would be imprecise. These are genuine defects that have no small safe repair (Air::new cannot
+    return an error); they are listed in known_findings.json and reported as KNOWN-FINDING."""
+    from ..ranges import top_ty
+    ck.rule("AC", "AirContext constructors do not panic on the proof-supplied trace info and options (no small safe repair: known findings)")
+    an2 = Analyzer(prog, max_depth=5, opaque=lambda fn: fn.crate != "winter_air" or "::proof::" in fn.nname)
+    an2.type_inv[TI] = ti
+    an2.type_inv[PO] = po
+    an2.type_inv[AC] = acv
+    an2.sticky_control = True     # which assertion on the AIR's own data is reached is chosen by the proof (is_multi_segment)
+    for name in (AC + "::new", AC + "::new_multi_segment", AC + "::set_num_transition_exemptions"):
+        f = prog.fn(name)
+        ck.saw(f)
+        args = []
+        for ty in f.get("inputs") or []:
+            t = ty.replace("mut ", "").lstrip("&")
+            if t.endswith("TraceInfo"):
+                args.append(ti)
+            elif t.endswith("ProofOptions"):
+                args.append(po)
+            elif t in ("Self",) or t.startswith("winter_air::air::context::AirContext"):
+                args.append(acv)
+            else:
+                args.append(top_ty(ty, False))
+        an2.analyze(f, args)
+    n = 0
+    for k, (status, loc) in sorted(an2.site_log.items()):
+        if "/panic:" not in k or not k.startswith(AC):
+            continue
+        n += 1
+        short = k[len("winter_air::air::context::"):]
+        ck.ob("AC", short, status in ("safe", "untainted"),
+              f"{short.split('/')[0]}: this assertion cannot fail for a trace info and options taken from a parsed proof", loc=loc)
+    ck.floor("assertions of the AirContext constructors examined", n, 8)
 
 
 def run(ck):
@@ -135,6 +176,7 @@ def run(ck):
     ck.stats["merkle_sites_safe"] = n_m["safe"]
     ck.floor("distinct sites proved safe", n["safe"], 35)
     guard_rules(ck, prog)
+    aircontext_scope(ck, prog, *an.ac_inputs)
     controls(ck, prog)
 
 
@@ -168,6 +210,14 @@ def guard_rules(ck, prog):
     # assert_eq!(queried_evaluations.num_rows(), x_coordinates.len()) in the DEEP composer
     from . import c10
     c10.opening_fully_used(ck, prog, None, "G")
+    # (1d) the number of queries is compared with the LDE domain size (both from the proof's context) before the positions are drawn:
+    # draw_integers asserts num_values < domain_size
+    vfn = prog.fn("winter_verifier::verify")
+    dr = [(b, T) for b, t in prog.inl(prog.fn("winter_verifier::perform_verification")).calls() if (callee_name(t) or "").endswith("RandomCoin::draw_integers")]
+    m = [g for g in mg.of(vfn) if g.kind == "switch" and g.fn.nname.startswith("winter_verifier::") and
+         V.match_cmp(g, (">=", ">"), V.has_callee("ProofOptions::num_queries"), V.has_callee("lde_domain_size"))]
+    V.require(ck, "G", "verify:queries-below-domain-size", m,
+              "reject iff the proof's number of queries is not smaller than its LDE domain size (draw_integers asserts it)", loc_hint=vfn.loc())
     # (2) a proof component whose presence the proof controls is never unwrapped
     pv = prog.fn("winter_verifier::perform_verification")
     g = flow(pv)
